@@ -33,9 +33,9 @@ func init() {
 		Run:   runR202,
 	})
 	core.Register(&core.Rule{
-		ID:    "R20.3",
-		Title: "user files are only looked at",
-		Text:  "LocateCustomTyperefs performs no destructive filesystem call (only os.Stat) and looks for <TypeName>+\".go\"; Typeref.GenerateCode returns nil on the custom-typeref edge before building any code, and GenerateCode skips nil code.",
+		ID:      "R20.3",
+		Title:   "user files are only looked at",
+		Text:    "LocateCustomTyperefs performs no destructive filesystem call (only os.Stat) and looks for <TypeName>+\".go\"; Typeref.GenerateCode returns nil on the custom-typeref edge before building any code, and GenerateCode skips nil code.",
 		Props:   []string{"C20"},
 		Modules: []string{"v2"},
 		Floor:   map[string]int{"v2": 3},
